@@ -73,7 +73,8 @@ PROPS = {
         'tests': [tst('logbuf', 'TestC18Exhaustive', 1, 1, qshards=1, tshards=1),
                   tst('logbuf', 'TestC18Model', 2500, 40000),
                   tst('logbuf', 'TestC18Concurrent', 400, 6000),
-                  tst('logbuf', 'TestC18Websocket', 40, 600)],
+                  tst('logbuf', 'TestC18Websocket', 40, 600),
+                  tst('logbuf', 'TestC18TwoWriters', 40, 600)],
         'rule': "four generators: (1) exhaustive: every log length 0..12 x every (offset, limit) in [-2, len+2]^2 against a slice window; (2) rapid state machine over ProcessLogBuffer (size in {0,1,5,50}) with write bursts up to 130 lines, range queries, subscribe(tail)/unsubscribe/close, model = slice of all lines, invariants after every op; (3) a writer goroutine racing GetLogsAndSubscribe at a drawn scheduling offset; (4) websocket followers through api.InitRoutes (reading / disconnecting second follower). Non-trivial = a range query with offset>0, limit>0, offset+limit != len on a non-empty log, a subscription after lines were written, or a hand-over that fell inside the concurrent stream; distinct = distinct case JSON",
         'assumptions': ["the websocket handler is driven through a minimal IProject that only serves the log subscription calls", "a stalled follower is a recorded known finding and is only replayed, not generated"],
     },
